@@ -13,7 +13,8 @@ VALUES = ['x y', 'a"b', 'c\\d', "it's", 'a\\nb', 'back\\\\slash', '\\', '"', "'"
           'main.py', 'x=1', 'a,b']
 MARK = ['-r', '--run', '-g', '--gdb']
 AFTER = ['prog', './a.out', '--verbose', '--color', '-f', 'x', '-r', '--gdb', '-g', '--run', 'a b', '', '-Cr', '--', '-l', '-h', '--help', '"q"', '\\', '-ex', 'run', '--args', '-p', '--pipe',
-         'c\\d', "it's", '-b', '!', '--supress', '-C', '$X', '*', 'a"b']
+         'c\\d', "it's", '-b', '!', '--supress', '-C', '$X', '*', 'a"b',
+         '-rt', '-rf', '-ggdb', '-Wgnu', '-lrt', '-rg', '-gr', '-grx', '-prC']      # the program's own clustered options (ls -rt, rm -rf, cc -ggdb)
 PRINTABLE = ''.join(c for c in string.printable if c not in '\n\r\t\x0b\x0c')
 
 
